@@ -13,3 +13,36 @@ Theorem C14_mapper_fields_locked :
 Proof. vm_compute. reflexivity. Qed.
 Print Assumptions C14_mapper_fields_locked.
 
+
+Definition reload_state : list string :=
+  ["pkg/mapper.MetricMapper.Defaults"; "pkg/mapper.MetricMapper.Mappings"; "pkg/mapper.MetricMapper.FSM";
+   "pkg/mapper.MetricMapper.doFSM"; "pkg/mapper.MetricMapper.doRegex"; "pkg/mapper.MetricMapper.cache";
+   "pkg/mappercache/lru.lruCache.cache"; "pkg/mappercache/randomreplacement.metricMapperRRCache.items"].
+
+(* C14: a reload clears the cache and swaps defaults, mappings and matcher inside ONE exclusive
+   critical section of the mapper's lock (so that, by critical_section_exclusive, no lookup runs
+   between the reset and the swap) ... *)
+Theorem C14_reload_one_critical_section :
+  one_section section_table "pkg/mapper.MetricMapper.InitFromYAMLString" reload_state "MetricMapper.mutex" true = true.
+Proof. vm_compute. reflexivity. Qed.
+Print Assumptions C14_reload_one_critical_section.
+
+(* ... a lookup reads the configuration, consults the cache and stores its answer inside ONE
+   section of the same lock (so no reload falls between computing an answer and caching it) ... *)
+Theorem C14_lookup_one_critical_section :
+  one_section section_table "pkg/mapper.MetricMapper.GetMapping" reload_state "MetricMapper.mutex" false = true.
+Proof. vm_compute. reflexivity. Qed.
+Print Assumptions C14_lookup_one_critical_section.
+
+(* ... and nothing else changes the cache's content outside the mapper's lock *)
+Theorem C14_cache_changes_inside_mapper_lock :
+  writes_inside access_table
+    ["pkg/mappercache/lru.lruCache.cache"; "pkg/mappercache/randomreplacement.metricMapperRRCache.items"]
+    "MetricMapper.mutex" = true.
+Proof. vm_compute. reflexivity. Qed.
+Print Assumptions C14_cache_changes_inside_mapper_lock.
+
+Theorem C14_critical_section_exclusive : forall tr s l t1 t2 e,
+  lrun [] tr = Some s -> In (l, t1, true) s -> In (l, t2, e) s -> t1 = t2.
+Proof. exact critical_section_exclusive. Qed.
+Print Assumptions C14_critical_section_exclusive.
